@@ -68,7 +68,21 @@ Match == {[f |-> ":match_entry", a |-> <<m, k, VV("V")>>] : m \in MMaps, k \in M
          \cup {[f |-> ":match_nil", a |-> <<l>>] : l \in MLists}
          \cup {[f |-> ":list:member", a |-> <<VV("X"), l>>] : l \in MLists}
          \cup {[f |-> ":list:member", a |-> <<x, l>>] : x \in MVals, l \in MLists}
-Cases == CASE Mode = "match" -> Match [] Mode = "arith" -> Arith [] Mode = "struct" -> Struct [] Mode = "cmp" -> Cmp [] Mode = "red" -> Red [] Mode = "ring" -> RingVec
+\* string and name functions and predicates over ASCII text; time and duration comparisons
+Strs == {Str(""), Str("a"), Str("ab"), Str("abc"), Str("aaa"), Str("abab"), Str("b/c")}
+Names == {Nm("/a"), Nm("/a/b"), Nm("/a/b/c"), Nm("/ab"), Nm("/ab/c")}
+StrVec == {[f |-> "fn:string:concat", a |-> q] : q \in {<<>>} \cup {<<x>> : x \in Strs \cup {Num(-7), Nm("/a/b")}}
+                                                       \cup {<<x, y>> : x \in {Str("a"), Str(""), Num(1), Nm("/a")}, y \in {Str("b"), Str(""), Num(-2), Nm("/x/y")}}
+                                                       \cup {<<Str("a"), Num(1), Nm("/x/y"), Str("z")>>, <<Str("a"), List(<<>>)>>}}
+          \cup {[f |-> "fn:string:replace", a |-> <<x, o, n, Num(k)>>] : x \in {Str("aaa"), Str("abab"), Str("abc"), Str("")}, o \in {Str("a"), Str("ab"), Str("x")},
+                                                                       n \in {Str(""), Str("b"), Str("xyz")}, k \in {-1, 0, 1, 2, 5}}
+          \cup {[f |-> g, a |-> <<x>>] : g \in {"fn:name:to_string", "fn:name:root", "fn:name:tip", "fn:name:list"}, x \in Names \cup {Str("/a")}}
+          \cup {[f |-> "fn:number:to_string", a |-> <<x>>] : x \in Nums \cup {Str("1")}}
+          \cup {[f |-> g, a |-> <<x, y>>] : g \in {":string:starts_with", ":string:ends_with", ":string:contains"}, x \in Strs, y \in Strs}
+          \cup {[f |-> ":match_prefix", a |-> <<x, y>>] : x \in Names \cup {Str("/a/b")}, y \in Names}
+          \cup {[f |-> g, a |-> <<Tm(i), Tm(j)>>] : g \in {":time:lt", ":time:le", ":time:gt", ":time:ge"}, i \in 0..2, j \in 0..2}
+          \cup {[f |-> g, a |-> <<Du(i), Du(j)>>] : g \in {":duration:lt", ":duration:le", ":duration:gt", ":duration:ge"}, i \in 0..2, j \in 0..2}
+Cases == CASE Mode = "str" -> StrVec [] Mode = "match" -> Match [] Mode = "arith" -> Arith [] Mode = "struct" -> Struct [] Mode = "cmp" -> Cmp [] Mode = "red" -> Red [] Mode = "ring" -> RingVec
 Init == c = <<>>
 Next == c = <<>> /\ c' \in Cases
 Emit == c # <<>> => PrintT(<<"CASE", ToJson(c)>>)
